@@ -320,10 +320,47 @@ def run_corpus(res, spec):
                     res.violations.append(dict(msg=f"repaired finding {e['id']} is back: {v['msg']}", replay=rp))
 
 
+def run_scenarios(res, spec):
+    """directed histories (corpus/scenarios/*.txt): implementation, model and judge, with the usual envelope"""
+    if spec["judge"][0] != "hist":
+        return
+    d = os.path.join(C.VERIF, "corpus", "scenarios")
+    if not os.path.isdir(d):
+        return
+    want = spec["judge"][1] or {res.pid}
+    for fn in sorted(os.listdir(d)):
+        if not fn.endswith(".txt"):
+            continue
+        path = os.path.join(d, fn)
+        wd = os.path.join(res.workdir, "scenario-" + fn[:-4])
+        ok, log, okd, logd, _ = C.run_stream_cached("hist", "hist", res.seed, res.tier, wd, extra=["-replay", path])
+        if not (ok and okd):
+            res.corr_breaks.append(("scenario:" + fn, -1, "scenario replay failed", (log or logd)[-800:], ""))
+            continue
+        ops = C.op_lines(os.path.join(wd, "ops.txt"))
+        impl = [l for l in C.read_lines(os.path.join(wd, "impl.txt")) if l != ""]
+        model = [l for l in C.read_lines(os.path.join(wd, "model.txt")) if l != ""]
+        nh = sum(1 for o in ops if o.startswith("hist "))
+        res.cov["evaluations"] += nh
+        res.cov["distinct_nontrivial"] += nh
+        res.cov["streams"]["scenarios:" + fn] = dict(histories=nh, lines=len(ops))
+        dd = first_diff(impl, model)
+        if dd is not None:
+            rp = write_replay(res, "scenario-" + fn[:-4], ops, impl, model, min(dd, len(ops) - 1), "model and implementation differ on a directed scenario")
+            res.corr_breaks.append(("scenario:" + fn, dd, ops[dd] if dd < len(ops) else "<eof>", impl[dd] if dd < len(impl) else "<eof>", model[dd] if dd < len(model) else "<eof>", rp))
+        else:
+            res.cov["traces_validated_against_impl"] += nh
+        viol, _ = judge_hist.judge(ops, impl, want)
+        for v in [x for x in viol if x["prop"] in want][:3]:
+            rp = write_replay(res, "scenario-" + fn[:-4], ops, impl, model, v["line"], v["msg"])
+            res.violations.append(dict(msg=v["msg"], replay=rp))
+
+
 def correspond(res, spec):
     if getattr(res, "build_failed", False):
         return
     run_corpus(res, spec)
+    run_scenarios(res, spec)
     if spec["judge"][0] in ("facts", "conc"):
         facts_and_conc(res, spec)
         return
